@@ -692,7 +692,10 @@ def report_table(chk, F, rule, config):
         if is_call(v, r'^teardown::teardown_report$'):
             return 'teardown_report'
         if v[0] == 'field' and v[1][0] == 'as' and v[1][2] == 'Return':
-            return 'mocked-output'
+            # (a canned exit code does not replace the verification: the instance must still be verified when it is dropped at the end of
+            #  report() - so nothing on this path may tear it down and throw the verdict away)
+            torn = [e.data[1] for e in p.calls(r'^teardown::(teardown|teardown_report|teardown_panic)$')]
+            return 'mocked-output' + ('+%s(verdict discarded)' % torn[0].rsplit('::', 1)[-1] if torn else '')
         return 'other:' + show(v)
     rows = tables.abstract(paths, atom, outcome)
     tables.check_table(chk, rule, fn, rows, [
@@ -824,7 +827,16 @@ def locked_census(chk, F, rule, config, allow, floor):
     allow: list of (receiver-field regex, callee regex list)"""
     locked = F.fn('private::MutexIsh::locked')
     # the lock wrapper itself: lock, unwrap (poison), deref_mut, call_once
+    lock_calls = []
     for bb, t in locked.calls():
+        d_ = symex.callee_def(t)
+        hf_ = F.fns.get(d_)
+        if hf_ is not None and symex.is_new_helper(hf_):
+            # the per-backend lock primitive extracted into a helper of its own: what it calls is what `locked` calls
+            lock_calls += list(hf_.calls())
+        else:
+            lock_calls.append((bb, t))
+    for bb, t in lock_calls:
         n = symex.callee_name(t)
         ok = bool(re.search(r'(Mutex::lock$|Result::unwrap$|DerefMut>?::deref_mut$|Deref>?::deref$|FnOnce::call_once$|RefCell::borrow_mut$)', n))
         chk.ob(rule, 'MutexIsh::locked only locks and runs the closure', ok, config=config, fn=locked, site='call:%s' % n,
